@@ -1019,7 +1019,6 @@ func c16AlphaHint(c *Ctx, p *Program) {
 	}
 }
 
-
 // nextWriteBits: the WriteBits calls that are the first such call on some path after the given one.
 func nextWriteBits(from *ssa.Call) []*ssa.Call {
 	var out []*ssa.Call
